@@ -191,11 +191,15 @@ def real_scenario(name):
                 rec.exc = None
             site += "Recv" if op == "reset-recv" else "Send"
             raised, ret = False, None
+            t.store.stamp = 3.0
+            tm0 = (t.timer.start, t.timer.stop)
             try:
                 ret = t.receive() if op == "reset-recv" else t.send(b"abc")
             except OSError:
                 raised = True
-            obs = "ret=%s cut=%d open=%d" % ("raised" if raised else show(ret), int(bool(t.cutoff)), int(t.cs is not None))
+            obs = "ret=%s cut=%d open=%d tmr=%s" % ("raised" if raised else show(ret), int(bool(t.cutoff)),
+                                                   int(t.cs is not None),
+                                                   "same" if (t.timer.start, t.timer.stop) == tm0 else "moved")
         elif name.startswith("gram-"):
             h = udping.SocketUdpNb(ha=("127.0.0.1", 0))
             h.reopen()
@@ -570,7 +574,10 @@ class CHECK(core.Check):
             obs, _, regions = r.partition(" | ")
             if regions:
                 self._regions[core.case_key(case)] = dict(p.split("=") for p in regions.split())
-            out.append(obs.split(" ", 1)[1] if " " in obs else obs)
+            obs = obs.split(" ", 1)[1] if " " in obs else obs
+            if case["site"] in DATA or case["site"] in HANDSHAKE:
+                obs += " tmr=same"       # no error outcome of any ladder touches the connection's idle timer
+            out.append(obs)
         return out
 
     # ------------------------------------------------------------------ implementation
@@ -630,11 +637,13 @@ class CHECK(core.Check):
         if "connect" in case:
             return [self._connect(case["connect"])]
         site, exc, cut = case["site"], make_exc(case["cls"], case["arg0"]), bool(case["cut"])
-        ret, raised, is_open, cutoff = None, False, True, cut
+        ret, raised, is_open, cutoff, tmr = None, False, True, cut, ""
         try:
             if site in DATA or site in HANDSHAKE:
                 t, sock = self._stream(site)
                 t.cutoff = cut
+                t.store.stamp = 3.0                     # later than the moment the connection's idle timer was started
+                tm0 = (t.timer.start, t.timer.stop)
                 try:
                     if site.endswith("Recv"):
                         sock.recvs.append(("raise", exc))
@@ -647,6 +656,7 @@ class CHECK(core.Check):
                         ret = t.serviceHandshake() if site.startswith("incomer") else t.handshake()
                 finally:
                     is_open = t.cs is not None and not sock.closed
+                    tmr = " tmr=" + ("same" if (t.timer.start, t.timer.stop) == tm0 else "moved")
                     cutoff = bool(t.cutoff)
             elif site == "acceptorAccept":
                 from ioflo.aio.tcp import serving
@@ -681,7 +691,7 @@ class CHECK(core.Check):
                 return ["ERR other exception %s: %s" % (type(ex).__name__, str(ex)[:80])]
             raised = True
         r = "raised" if raised else (ret if isinstance(ret, str) else show(ret))
-        return ["ret=%s cut=%d open=%d" % (r, int(cutoff), int(is_open))]
+        return ["ret=%s cut=%d open=%d%s" % (r, int(cutoff), int(is_open), tmr)]
 
     def _connect(self, code):
         from ioflo.aio.tcp import clienting
@@ -764,6 +774,8 @@ class CHECK(core.Check):
             elif cat == "block":
                 if raised or f["cut"] != str(cut) or f["open"] != "1" or f["ret"] != nothing[kind]:
                     return "%s: would-block changed state or raised: %s (cutoff before %d)" % (what, out[0], cut)
+                if f.get("tmr", "same") != "same":
+                    return "%s: would-block restarted the connection's idle timer (connection state changed)" % what
             else:
                 if not raised:
                     return "%s: an error that is neither would-block nor connection loss did not propagate: %s" % (what, out[0])
@@ -804,6 +816,14 @@ class CHECK(core.Check):
             q = ids(queue)
         if transient_only and sorted(sent_all + q) != sorted(i for i, _ in case["pkts"]):
             return "%s: sent %s + still queued %s are not the packets that were queued" % (what, sent_all, q)
+        if transient_only and not any(e.endswith("Once") for e in case["gramseq"]):
+            # whole-queue passes keep the packets of one destination in the order they were queued
+            dest = dict((i, d) for i, d in case["pkts"])
+            for d in set(dest.values()):
+                seen = [i for i in sent_all + q if dest[i] == d]
+                if seen != [i for i, dd in case["pkts"] if dd == d]:
+                    return ("%s: packets for destination %d go out / stay queued in the order %s, they were queued as %s"
+                            % (what, d, seen, [i for i, dd in case["pkts"] if dd == d]))
         return None
 
     def _oracle_sess(self, case, line):
